@@ -20,6 +20,7 @@ InGrammar(p, t) ==
   /\ p = "self" => t \in SelfTypes
   /\ p # "self" => TRUE
   /\ (HasKind(t, {"cb", "cb_ref", "trait"}) => p \in {"param", "lastparam", "ret"})
+  /\ (HasKind(t, {"strs"}) => p \notin {"field", "outfield"})        \* `&[DiplomatStrSlice]` has an elided lifetime: rustc refuses it in a field
   /\ (p = "ret_elided" => HasKind(t, Borrowing))          \* otherwise identical to "ret"   \* impl Trait: argument/return position only
   /\ (HasKind(t, {"write"}) => p \in {"param", "lastparam", "ret", "ret_elided", "field", "outfield"})
 
